@@ -70,6 +70,8 @@ def scripts_for(cfg, max_dev):
             singles.append((s, o))
         if s == 'ehlo' and not cfg.get('lmtp'):
             singles.append(('ehlo', '500'))
+        if s.startswith('rcpt'):
+            singles.append((s, '251'))           # accepted, with a 2xx code other than 250
     for s, o in singles:
         yield {s: o}
         if s == 'ehlo' and o == '500':
@@ -102,7 +104,7 @@ def judge_smtp(cfg, script, w):
                 acc = [r.decode('latin-1') for r, ok in t['rcpts'] if ok]
                 for entry in p.log:
                     stage, o, txn = entry
-                    if o == '2' or o == '500':
+                    if o in ('2', '500', '251'):
                         continue
                     cls = 'perm' if o == '5' else 'temp'
                     if o in ('malformed', 'badcode', 'disconnect') and txn == t_index and stage not in ('quit',):
@@ -122,7 +124,7 @@ def judge_smtp(cfg, script, w):
                             deciding[r].add(cls)
             # connection-level stages decide for every envelope that never got a transaction on this peer
             for stage, o, txn in p.log:
-                if o in ('2', '500'):
+                if o in ('2', '500', '251'):
                     continue
                 if stage in ('banner', 'ehlo', 'helo', 'auth', 'tls') or (stage == 'starttls' and cfg.get('tls_required')):
                     cls = 'perm' if o == '5' else 'temp'
@@ -131,7 +133,7 @@ def judge_smtp(cfg, script, w):
                             deciding[r].add(cls)
         desc = 'script %r (%s%s n=%d%s): attempt -> %s %r; peer accepted %r' % (
             script, 'LMTP' if cfg.get('lmtp') else 'SMTP', '' if cfg.get('pipelining', True) else ' no-pipelining', cfg['n'],
-            ''.join(' %s=%r' % (k, cfg[k]) for k in ('tls', 'tls_required', 'auth', 'connect', 'envelopes') if cfg.get(k)),
+            ''.join(' %s=%r' % (k, cfg[k]) for k in ('tls', 'tls_required', 'auth', 'connect', 'envelopes', 'pool_size') if cfg.get(k)),
             whole, per, sorted(accepted))
         if whole == 'blocked':
             out.append((dict(base, kind='attempt-never-returned'), desc))
@@ -488,6 +490,9 @@ def smtp_configs(tier):
         cfgs.append(dict(lmtp=lmtp, n=2, connect='refused', dev=0))
         cfgs.append(dict(lmtp=lmtp, n=2, tls='starttls', tls_required=True, client_tls_fail=True, dev=0))
         cfgs.append(dict(lmtp=lmtp, n=2, envelopes=2, idle_timeout=5.0, dev=1, reuse=True))
+        # pool of one: the second envelope waits for the connection while the first transaction is being wound up
+        cfgs.append(dict(lmtp=lmtp, n=2, envelopes=2, idle_timeout=5.0, pool_size=1, dev=1, reuse=True))
+        cfgs.append(dict(lmtp=lmtp, n=1, envelopes=2, idle_timeout=5.0, pool_size=1, pipelining=False, dev=1, reuse=True))
     return cfgs
 
 
@@ -512,6 +517,15 @@ def run_config(cfg, tier, seed):
                 for o in OUTCOMES:
                     scripts.append({'%s@0' % s: o})
                     scripts.append({'%s@1' % s: o})
+                if s not in ('rset',):
+                    # the first transaction fails and the reply to its RSET arrives after the command timeout,
+                    # while the second envelope is already waiting for the connection
+                    for o in ('4', '5'):
+                        scripts.append({'%s@0' % s: o, 'rset@0': ['delay', 12.0]})
+                        scripts.append({'%s@0' % s: o, 'rset@0': ['trickle', 2.0]})
+                        for s2 in stages(c):
+                            if s2.startswith('eod') or s2 in ('mail', 'data'):
+                                scripts.append({'%s@0' % s: o, 'rset@0': ['delay', 12.0], '%s@1' % s2: '5'})
         for i, script in enumerate(scripts):
             w = run_smtp(wc, script)
             res.evaluations += 1
